@@ -327,6 +327,17 @@ fn format_line_number(
     }
 }
 
+// Verification hook (compiled only with --cfg dandavison_delta_verif).
+#[cfg(dandavison_delta_verif)]
+pub fn verif_ansi_format_line_number(
+    line_number: Option<usize>,
+    width: usize,
+    plus_file: Option<&str>,
+    config: &config::Config,
+) -> String {
+    format_line_number(line_number, Align::Right, width, None, plus_file, config)
+}
+
 #[cfg(test)]
 pub mod tests {
     use regex::Captures;
